@@ -674,8 +674,12 @@ func ruleC07Keeps(p *Program, r *Run) {
 					}
 				case *ast.AssignStmt:
 					for i, l := range u.Lhs {
-						if _, isSel := ast.Unparen(l).(*ast.SelectorExpr); isSel && i < len(u.Rhs) && objOf(info, u.Rhs[i]) == v {
-							kept = true
+						if i >= len(u.Rhs) || objOf(info, u.Rhs[i]) != v {
+							continue
+						}
+						switch ast.Unparen(l).(type) {
+						case *ast.SelectorExpr, *ast.IndexExpr:
+							kept = true // a field, or an element of the list being built (result[0] = first)
 						}
 					}
 				case *ast.ReturnStmt:
